@@ -103,12 +103,37 @@ def invalid_bit():
         cfg = bit_config()
         unconf = [b for b in range(2, 129) if str(b) not in cfg]
         b = choose('bit', unconf)
-        data = struct.pack('>I', 30) + b'1240' + bitmap_bytes([2, b]) + b'0512345' + b' ' * 40
-        rp = {'kind': 'bit', 'args': {'bit': b}}
+        bit1 = choose('bit1', [True, False])
+        data = struct.pack('>I', 30) + b'1240' + bitmap_bytes([2, b], bit1) + b'0512345' + b' ' * 40
+        rp = {'kind': 'bit', 'args': {'bit': b, 'bit1': bit1}}
         with guard('ipm_info', 'C17/exception', rp):
             info = m.ipm_info(RopeFile(data))
         require(info.get('isValidIPM') is False and info.get('reason'), 'unconfigured bit %d not reported invalid' % b, key='C17/bit', replay=rp)
         return {'sample': {'bit': b, 'reason': str(info.get('reason'))}, 'replay': rp}
+    return h
+
+
+def configured_max():
+    """the maximum first length follows the configuration at run time"""
+    def h():
+        m = M().mciipm
+        cfg = M().config.config
+        old = cfg.get('MAX_VBS_RECORD_LENGTH', 6000)
+        newmax = choose('newmax', [200, 1500, 8000])
+        L = sym_int('first_len', 0, 20000)
+        data = cat('b', mk('b', [U32(L, '>I')]), b'1240', bitmap_bytes([2]), b'0512345' + b' ' * 40)
+        rp = {'kind': 'firstlen', 'args': {'L': ev(L), 'newmax': newmax}}
+        cfg['MAX_VBS_RECORD_LENGTH'] = newmax
+        try:
+            with guard('ipm_info', 'C17/exception', rp):
+                info = m.ipm_info(RopeFile(data))
+        finally:
+            cfg['MAX_VBS_RECORD_LENGTH'] = old
+        if L > newmax:
+            require(info.get('isValidIPM') is False and info.get('reason'), 'first length above the configured maximum (%d) not reported invalid' % newmax, key='C17/maxlen', replay=rp)
+        else:
+            require(info.get('isValidIPM') is True, 'first length within the configured maximum (%d) reported invalid' % newmax, key='C17/maxlen', replay=rp)
+        return {'sample': {'first_len': ev(L), 'max': newmax, 'valid': info.get('isValidIPM')}, 'replay': rp}
     return h
 
 
@@ -134,5 +159,6 @@ def obligations(tier):
         obs.append(Ob('writer/3rec/latin_1/blocked', writer_file(3, 'latin_1', True, lambda i: [[2, 127], [54, 72], [111, 3]][i]), 900, 'three records', _funcs))
     obs.append(Ob('invalid/short', invalid_short(), 60, 'opaque input of length 0..40', _funcs))
     obs.append(Ob('invalid/first-length', invalid_length(), 60, 'first 4-byte length any 32-bit value (max / max+1 boundary is a value of it)', _funcs))
+    obs.append(Ob('invalid/first-length/configured-max', configured_max(), 60, 'MAX_VBS_RECORD_LENGTH set to 200 / 1500 / 8000 at run time, first length any value 0..20000', _funcs))
     obs.append(Ob('invalid/unconfigured-bit', invalid_bit(), 120, 'each bit without configuration set in the first bitmap', _funcs))
     return obs
